@@ -447,6 +447,15 @@ pub fn finish() {
     if let Some(h) = CLOCK_HANDLE.with(|c| c.borrow_mut().take()) {
         let _ = h.join();
     }
+    // A completed execution frees its simulated kernel state (pending timers, sockets, datagram
+    // logs, files) here, while the engine is still live; `start` only has to forget the state of
+    // executions that were aborted.
+    let timers = WORLD.with(|w| std::mem::take(&mut w.borrow_mut().timers));
+    drop(timers);
+    net::clear_after_finish();
+    #[cfg(feature = "tokio")]
+    tokio_net::clear_after_finish();
+    fs::reset();
 }
 
 // --- clock -----------------------------------------------------------------------
